@@ -81,6 +81,11 @@ def run(sid, props, tier="quick"):
     assert out.strip() == "", "/repo not clean: " + out
     rc, out = sh(f"git -C /repo apply --3way {d}/patch.diff 2>&1 || git -C /repo apply {d}/patch.diff")
     results = {}
+    saved = {}
+    for p in props:        # the evidence files must keep describing the unchanged tree
+        ev = os.path.join(VERIF, "evidence", f"{p}.json")
+        if os.path.exists(ev):
+            saved[ev] = open(ev).read()
     if rc != 0:
         print(sid, "PATCH DOES NOT APPLY", out[-300:])
         sh("git -C /repo checkout -q -- . && git -C /repo reset -q")
@@ -92,6 +97,9 @@ def run(sid, props, tier="quick"):
             results[p] = (rc, last)
     finally:
         sh("git -C /repo reset -q && git -C /repo checkout -q -- .")
+        for ev, txt in saved.items():
+            with open(ev, "w") as fh:
+                fh.write(txt)
     return results
 
 
